@@ -430,9 +430,16 @@ def gen_system(rng, name, comp):
         env[v] = val
         syms.append(v)
     sig = [sym_expr(rng, syms, env)[0] for _ in range(rng.randint(2, 4))]
+    # an instance argument is a Python expression of the system language; after the <...> parts are replaced by their values the rest
+    # of the argument text (no ',' or ')': the grammar ends an argument there) stays as written ("all other text untouched") and is evaluated like in a hand-written file: Gate(6, 6*3)
+    spellings = [["<%s>"], ["<%s>"], ["<%s>+1", "1 + <%s>"], ["<%s>*2", "2*<%s>", "<%s>+<%s>"], ["+<%s>", "<%s>", "<%s> ", "0+<%s>"], ["2*<%s>-1", "<%s>*2 - 1"]]
+    forms = [rng.choice(spellings) for _ in sig]
+    def arg(j):
+        f = rng.choice(forms[j])
+        return f.replace("%s", sig[j])
     for i in range(len(sig) - 1):
         pat, _ = name_group(rng, "g%d" % i)
-        body.append("component %s = %s(<%s>, <%s>): x%d -> x%d" % (pat, comp, sig[i], sig[i + 1], i, i + 1))
+        body.append("component %s = %s(%s, %s): x%d -> x%d" % (pat, comp, arg(i), arg(i + 1), i, i + 1))
     head = "declare system %s(%s): -> " % (name, ", ".join(params))
     head0 = "declare system %s: -> " % name
     return head, head0, decorate(rng, body), params, args
@@ -524,11 +531,14 @@ def end_to_end(res, rng, scratch_dir, idx, kind, reqs, impls):
         # Gate_a_b.comp (one template instantiated with different arguments in one compile must give different components)
         tuples = []
         def inst(m):
-            a_, b_ = int(m.group(1)), int(m.group(2))
+            # the arguments of the hand-written line are integer arithmetic over literals: their values
+            a_, b_ = (int(eval(m.group(k), {"__builtins__": {}}, {})) for k in (1, 2))
             if (a_, b_) not in tuples:
                 tuples.append((a_, b_))
+            if not re.fullmatch(r"\s*-?\d+\s*", m.group(1)) or not re.fullmatch(r"\s*-?\d+\s*", m.group(2)):
+                res.count("e2e:sys:instance-argument-is-arithmetic-after-substitution")
             return "= Gate_%d_%d:" % (a_, b_)
-        hb2 = re.sub(r"=\s*Gate\(\s*(-?\d+)\s*,\s*(-?\d+)\s*\)\s*:", inst, hand_body)
+        hb2 = re.sub(r"=\s*Gate\(([-+*\d\s()]+),([-+*\d\s()]+)\)\s*:", inst, hand_body)
         if tuples and "Gate(" not in hb2:
             hand_body = re.sub(r"^(\s*)import Gate\s*$", lambda m: m.group(1) + "import " + ", ".join("Gate_%d_%d" % t for t in tuples), hb2, flags=re.M)
             for (a_, b_) in tuples:
